@@ -132,6 +132,12 @@ Definition add_pending (ks : list key) (st : rstate) : rstate :=
   {| rs_store := rs_store st; rs_chans := rs_chans st; rs_pending := rs_pending st ++ ks;
      rs_resolved := rs_resolved st; rs_log := rs_log st |}.
 
+Fixpoint nodup_handles (l : list handle) : bool :=
+  match l with
+  | [] => true
+  | k :: l' => negb (memb k l') && nodup_handles l'
+  end.
+
 Definition E_DOUBLE_USE : N := 90.     (* a handle closed / consumed twice, or not live *)
 Definition E_BAD_SCHEDULE : N := 91.   (* the recorded schedule does not fit the model's pending set *)
 Definition E_FUEL : N := 92.           (* the skip cascade ran out of fuel *)
@@ -140,7 +146,7 @@ Definition E_UNKNOWN_NODE : N := 93.   (* "unknown node" / "target channel doesn
 (* a consumer takes a live handle *)
 Definition consume (h : handle) (s : store) : res store :=
   if memb h (s_open s)
-  then Ok {| s_next := s_next s; s_open := remove_one h (s_open s); s_log := s_log s |}
+  then Ok {| s_next := s_next s; s_open := remove_one h (s_open s); s_log := s_log s; s_hist := HConsume h :: s_hist s |}
   else Err E_DOUBLE_USE.
 
 Fixpoint consume_all (hs : list handle) (s : store) : res store :=
@@ -150,7 +156,21 @@ Fixpoint consume_all (hs : list handle) (s : store) : res store :=
   end.
 
 Definition fresh (s : store) : handle * store :=
-  (s_next s, {| s_next := s_next s + 1; s_open := s_open s ++ [s_next s]; s_log := s_log s |}).
+  (s_next s, {| s_next := s_next s + 1; s_open := s_open s ++ [s_next s]; s_log := s_log s; s_hist := HFresh (s_next s) :: s_hist s |}).
+
+(* mergeValues over the live handles [vs] (two or more), or emptyStream() (none): the sources live on
+   in the fresh merged stream *)
+Fixpoint remove_all (hs : list handle) (l : list handle) : list handle :=
+  match hs with
+  | [] => l
+  | h :: hs' => remove_all hs' (remove_one h l)
+  end.
+
+Definition merge (vs : list handle) (s : store) : res (handle * store) :=
+  if forallb (fun v => memb v (s_open s)) vs && nodup_handles vs
+  then Ok (s_next s, {| s_next := s_next s + 1; s_open := remove_all vs (s_open s) ++ [s_next s];
+                        s_log := s_log s; s_hist := HMerge vs (s_next s) :: s_hist s |})
+  else Err E_DOUBLE_USE.
 
 (* sr.close() issued by the engine *)
 Definition close_all (o : origin) (hs : list handle) (st : rstate) : res rstate :=
@@ -177,21 +197,23 @@ Definition report_skip (g : graph) (x k : key) (st : rstate) : res (bool * rstat
   else
     Ok (false, set_chan st x {| ch_ctrl := ctrl; ch_data := data; ch_vals := ch_vals c; ch_skipped := false |}).
 
-(* one round of channelManager.reportBranch: reportSkip([from]) on each node of [xs];
-   the nodes that became (or are) skipped are appended to the work list *)
-Fixpoint skip_each (g : graph) (from : key) (xs : list key) (st : rstate) : res (list key * rstate) :=
+(* one round of channelManager.reportBranch: reportSkip([from]) on each node of [xs]; a node that
+   became (or is) skipped is put on the work list once ([queued], fa983c2) *)
+Fixpoint skip_each (g : graph) (from : key) (xs : list key) (queued : list key) (st : rstate)
+  : res (list key * list key * rstate) :=
   match xs with
-  | [] => Ok ([], st)
+  | [] => Ok ([], queued, st)
   | x :: xs' =>
       do r <- report_skip g x from st;
       let '(sk, st1) := r in
-      do r2 <- skip_each g from xs' st1;
-      let '(ks, st2) := r2 in
-      Ok (if sk then x :: ks else ks, st2)
+      let isnew := sk && negb (memb x queued) in
+      do r2 <- skip_each g from xs' (if isnew then x :: queued else queued) st1;
+      let '(ks, q2, st2) := r2 in
+      Ok (if isnew then x :: ks else ks, q2, st2)
   end.
 
 (* for i := 0; i < len(nKeys); i++ { for successor of nKeys[i] { reportSkip([nKeys[i]]) ... } } *)
-Fixpoint cascade (g : graph) (fuel : nat) (work : list key) (st : rstate) : res rstate :=
+Fixpoint cascade (g : graph) (fuel : nat) (work : list key) (queued : list key) (st : rstate) : res rstate :=
   match work with
   | [] => Ok st
   | k :: rest =>
@@ -201,9 +223,9 @@ Fixpoint cascade (g : graph) (fuel : nat) (work : list key) (st : rstate) : res 
           match call_of g k with
           | None => Err E_UNKNOWN_NODE       (* successors[key] missing: END, or not a node *)
           | Some c =>
-              do r <- skip_each g k (succs c) st;
-              let '(ks, st1) := r in
-              cascade g f (rest ++ ks) st1
+              do r <- skip_each g k (succs c) queued st;
+              let '(ks, q1, st1) := r in
+              cascade g f (rest ++ ks) q1 st1
           end
       end
   end.
@@ -212,9 +234,9 @@ Definition CASCADE_FUEL : nat := 20000.
 
 (* channelManager.reportBranch(from, skippedNodes) *)
 Definition report_branch (g : graph) (from : key) (skipped : list key) (st : rstate) : res rstate :=
-  do r <- skip_each g from skipped st;
-  let '(ks, st1) := r in
-  cascade g CASCADE_FUEL ks st1.
+  do r <- skip_each g from skipped [] st;
+  let '(ks, q, st1) := r in
+  cascade g CASCADE_FUEL ks q st1.
 
 (* channel.reportValues({from: h}) on channel x *)
 Definition report_value (g : graph) (x from : key) (h : handle) (st : rstate) : res rstate :=
@@ -261,8 +283,8 @@ Definition chan_get (g : graph) (x : key) (st : rstate) : res (option handle * r
   match vs with
   | [h] => Ok (Some h, st2)
   | _ =>   (* [] : emptyStream() ; two or more : mergeValues *)
-      do s <- consume_all vs (rs_store st2);
-      let '(h, s') := fresh s in
+      do r <- merge vs (rs_store st2);
+      let '(h, s') := r in
       Ok (Some h, set_store st2 s')
   end.
 
@@ -285,18 +307,20 @@ Definition mk_task (k : key) (c : call) (outs : list (list key)) : res task :=
         t_branches := map (fun bo => {| b_nodata := bd_nodata (fst bo); b_ends := bd_ends (fst bo); b_sel := snd bo |})
                           (combine (c_branches c) outs) |}.
 
-(* calculateBranch: end nodes of the branches that no branch selected *)
-Definition skipped_ends (t : task) : list key :=
-  unique_keys (filter (fun e => negb (memb e (selected t))) (flat_map b_ends (t_branches t))).
+(* calculateBranch: the end nodes of the branches that no branch selected and that are not direct
+   (control) successors of the node either (665541a) *)
+Definition skipped_ends (c : call) (t : task) : list key :=
+  unique_keys (filter (fun e => negb (memb e (selected t)) && negb (memb e (c_controls c)))
+                      (flat_map b_ends (t_branches t))).
 
 (* phase 1 for one completed task whose output is [out] *)
-Definition resolve_one (g : graph) (t : task) (out : handle) (st : rstate) : res (resolved * rstate) :=
+Definition resolve_one (g : graph) (c : call) (t : task) (out : handle) (st : rstate) : res (resolved * rstate) :=
   do r <- resolve_task t out (rs_store st);
   let st1 := set_store st (r_store r) in
   (* the branch conditions read or close their copies *)
   do s2 <- consume_all (r_branch_in r) (rs_store st1);
   let st2 := set_store st1 s2 in
-  do st3 <- report_branch g (t_node t) (skipped_ends t) st2;
+  do st3 <- report_branch g (t_node t) (skipped_ends c t) st2;
   do st4 <- close_all OResolve (r_closed r) st3;
   Ok (r, st4).
 
@@ -335,7 +359,7 @@ Fixpoint phase1 (g : graph) (b : batch) (st : rstate) : res (list (call * task *
           do t <- mk_task k c outs;
           (* the output of the task: a fresh handle *)
           let '(out, s1) := fresh (rs_store st) in
-          do r <- resolve_one g t out (set_store st s1);
+          do r <- resolve_one g c t out (set_store st s1);
           let '(rv, st1) := r in
           do r2 <- phase1 g b' st1;
           let '(l, st2) := r2 in
@@ -381,15 +405,19 @@ Definition mark_resolved (ks : list key) (st : rstate) : rstate :=
   {| rs_store := rs_store st; rs_chans := rs_chans st; rs_pending := remove_keys ks (rs_pending st);
      rs_resolved := rs_resolved st ++ ks; rs_log := rs_log st |}.
 
-(* calculateNextTasks(completedTasks) followed by createTasks / the END test *)
-Definition superstep (g : graph) (b : batch) (st : rstate) : res outcome :=
+(* calculateNextTasks(completedTasks) up to the ready map: resolveCompletedTasks, updateAndGet *)
+Definition calc_next (g : graph) (b : batch) (st : rstate) : res (list (key * handle) * rstate) :=
   if negb (batch_fits g b (rs_pending st)) then Err E_BAD_SCHEDULE else
   do r1 <- phase1 g b st;
   let '(l, st1) := r1 in
   do st2 <- phase2 g l st1;
   do st3 <- phase3 g l st2;
   let st3' := mark_resolved (map fst b) st3 in
-  do r4 <- get_ready g (chan_keys g) st3';
+  get_ready g (chan_keys g) st3'.
+
+(* ... followed by the END test / createTasks *)
+Definition superstep (g : graph) (b : batch) (st : rstate) : res outcome :=
+  do r4 <- calc_next g b st;
   let '(ready, st4) := r4 in
   match nlist_get kEND ready with
   | Some out =>
@@ -400,6 +428,16 @@ Definition superstep (g : graph) (b : batch) (st : rstate) : res outcome :=
       do s <- consume_all (map snd ready) (rs_store st4);
       Ok (Running (set_store st4 s))
   end.
+
+(* the stream handles stored in the channels *)
+Definition held (g : graph) (st : rstate) : list handle :=
+  flat_map (fun x => chan_values g (rs_chans st x)) (chan_keys g).
+
+(* an interrupt exit after calculateNextTasks (handleInterrupt): checkPointer.convertCheckPoint
+   concatenates — reads to EOF and closes — every stream stored in a channel (cp.Channels) and every
+   input of the tasks that were about to start (cp.Inputs) *)
+Definition checkpoint_drain (g : graph) (ready : list (key * handle)) (st : rstate) : res store :=
+  consume_all (held g st ++ map snd ready) (rs_store st).
 
 (* ------------------------------------------------------------------ the run *)
 (* initChannelManager: in DAG mode the nodes that no edge or branch leads to are skipped up front *)
@@ -412,8 +450,21 @@ Definition unreachable (g : graph) : list key :=
 Definition covered (g : graph) : bool :=
   forallb (fun x => existsb (fun p => is_ctrl_pred g p x) (all_keys g) || memb x (unreachable g)) (chan_keys g).
 
+(* the nodes from which END is reachable along control edges and branches (a fixpoint iteration
+   bounded by the number of keys); [all_reach]: every node reaches END *)
+Fixpoint reach_iter (g : graph) (n : nat) (S : list key) : list key :=
+  match n with
+  | O => S
+  | Datatypes.S n' =>
+      reach_iter g n' (S ++ filter (fun x => existsb (fun y => is_ctrl_pred g x y && is_chan g y) S) (all_keys g))
+  end.
+Definition reach_set (g : graph) : list key :=
+  reach_iter g (List.length (all_keys g)) (filter (fun x => is_ctrl_pred g x kEND) (all_keys g)).
+Definition all_reach (g : graph) : bool :=
+  forallb (fun x => N.eqb x kSTART || memb x (reach_set g)) (all_keys g).
+
 Definition state0 : rstate :=
-  {| rs_store := {| s_next := 0; s_open := []; s_log := [] |};
+  {| rs_store := {| s_next := 0; s_open := []; s_log := []; s_hist := [] |};
      rs_chans := fun _ => chan0; rs_pending := [kSTART]; rs_resolved := []; rs_log := log0 |}.
 
 Definition init_state (g : graph) : res rstate :=
